@@ -5,6 +5,8 @@ import Chess.Lemmas.FnsEquiv.PositionAdd
 import Chess.Lemmas.FnsEquiv.Piece
 import Chess.Lemmas.FnsEquiv.Move
 import Chess.Lemmas.FnsEquiv.Search
+import Chess.Lemmas.FnsEquiv.Letters
+import Chess.Lemmas.FnsEquiv.Hash
 
 /-!
 # The generated definitions (`Chess/Gen/Fns.lean`) equal the hand-written model
@@ -24,10 +26,12 @@ parallel; all in namespace `Chess.FnsEquiv`, each followed by `#print axioms`):
 | module | theorems | method |
 |---|---|---|
 | `GameState` | `GameState_default_eq`, `GameState_en_passant_eq`, `GameState_set_en_passant_eq`, `GameState_{white,black}_{king,queen}_castling_eq`, `GameState_set_…_castling_{false,true}_eq` | all 256 bytes evaluated by the kernel (`forall_u8`, `decide +kernel`); `set_en_passant`: 256 bytes × values `0..=15` |
-| `Position` | `Position_new_eq` (rows, cols in `-16..=16`), `Position_as_usize_eq` (same box, index in `0..=127`), `Position_as_usize_eq_of_valid`, `Position_row_eq`, `Position_col_eq`, `Position_new_unsafe_eq`, `Position_ROOKS_eq` | kernel evaluation over the stated box (`forall_i8`); `rfl` for the projections |
+| `Position` | `Position_new_eq` (rows, cols in `-16..=16`), `Position_as_usize_eq` (same box, index in `0..=127`), `Position_as_usize_eq_of_valid`, `Position_row_eq`, `Position_col_eq`, `Position_new_unsafe_eq`, `Position_ROOKS_eq`, `Position_new_assert_eq` (box `-16..=16`; the `assert!` is `Pos.inBoard`), `Position_add_unsafe_eq` (valid square, deltas `-2..=2`) | kernel evaluation over the stated box (`forall_i8`); `rfl` for the projections |
 | `PositionAdd` (+ four slices) | `Position_add_eq` (valid square, deltas in `-8..=8`) | kernel evaluation of 8·8·17·17 cases, in four row slices |
 | `Piece` | `PieceType_discr_eq`, `Player_discr_eq`, `PieceType_material_value_eq`, `Piece_material_value_eq`, `Piece_as_index_eq`, `Piece_score_eq` (on the engine's tables, both phases, 12 pieces × 64 squares) | `cases` on the constructors, then kernel evaluation |
 | `Move` | `Move_is_tactical_move_eq`, `Move_index_history_eq` | `cases` on the constructor; the fields the function does not read are replaced by fixed ones by `rfl`; the remaining finite family (12×12 pieces, 12 pieces × 64 squares) by kernel evaluation |
+| `Letters` | `Piece_as_char_ascii_eq`/`_table`, `Piece_as_str_pgn_eq`/`_table`, `Piece_as_char_eq`/`_table` (model text functions; data tables `Gen.asciiLetters`, `Gen.pgnLetters`, `Gen.glyphsWhite`, `Gen.glyphsBlack`), `Piece_from_char_ascii_eq`/`_table` (EVERY `Char`; `Gen.fromLetters`), `toAsciiUppercase_eq`, `isAsciiLowercase_eq` | `cases` on the constructors + kernel evaluation; `from_char_ascii`: the 128 ASCII chars by kernel evaluation, a char `≥ 128` differs from every ASCII literal the term compares it with (`ne_ascii_of_high`, side condition decided on the literal), so both sides are `none` |
+| `Hash` | `GameState_hash_eq` (all 256 bytes, `STATE := Gen.stateKeys`), `Piece_hash_eq` (12 pieces × 64 valid squares, `PIECE := pieceRows`, the flat `Gen.pieceKeys` cut into 64 rows of 12; `pieceRows_shape`) | kernel evaluation (`Piece_hash_white`/`_black`: one colour per declaration, for the heartbeat budget) |
 | `Search` | `move_score_eq` (with `move_score_pv`, `move_score_killer`, `move_score_rest`, `move_score_order`), `move_score_unwrap_safe`, `ENDGAME_THRESHOLD_eq` | `toMove` is injective (so `==` on Rust moves is `=` on model moves); three layers by `unfold` + `simp only` on the two `if`s; the arms by kernel evaluation over pieces, the quiet arm through `Move_index_history_eq` and `quiet_arith` |
 
 Where the model uses unbounded `Int`/`Nat` and Rust a machine type, the theorem carries the range
